@@ -137,9 +137,9 @@ def merge(results):
             m["sets"].setdefault(k, set()).update(v)
         if len(m["samples"]) < 12:
             m["samples"].extend(r.get("samples", [])[:3])
-        m["inconclusive"].extend(r.get("inconclusive", []))
+        m["inconclusive"].extend(str(x)[:400] for x in r.get("inconclusive", []))
         if r.get("crash"):
-            m["inconclusive"].append("shard %s crashed: %s" % (r.get("shard"), r["crash"][-800:]))
+            m["inconclusive"].append("shard %s crashed: %s" % (r.get("shard"), r["crash"][-400:]))
     return m
 
 
